@@ -840,7 +840,8 @@ impl<'a> Gen<'a> {
                 };
                 MStmt::Switch { control, cases, default }
             }
-            9 if env.global => {
+            // mostly at global scope; sometimes inside a block (reported, but still translated)
+            9 if env.global || self.rng.below(5) == 0 => {
                 let name = env.fresh("g");
                 let np = self.rng.below(3) as usize;
                 let nq = 1 + self.rng.below(3) as usize;
@@ -863,7 +864,7 @@ impl<'a> Gen<'a> {
                 env.gates.push((name.clone(), np, nq));
                 MStmt::GateDef { name, params, qubits, body }
             }
-            10 if env.global => {
+            10 if env.global || self.rng.below(5) == 0 => {
                 let name = env.fresh("fn");
                 let np = self.rng.below(3) as usize;
                 let params: Vec<(String, String)> = (0..np).map(|i| (self.pick(INT_TYPES).to_string(), format!("x{i}"))).collect();
